@@ -78,9 +78,79 @@ func combine(a, b *world.Def) *world.Def {
 	return &n
 }
 
+// mix explores one property (C18: data races) over the workloads of several
+// other properties' worlds; oracle violations of those worlds are side
+// observations here, the deciding observation is the race detector's report.
+func mix(prop string, parts []*world.Def) *world.Def {
+	byWorld := func(d *Dual) *world.Def {
+		for _, p := range parts {
+			if p.Prop+"@"+p.World == d.World {
+				return p
+			}
+		}
+		return parts[0]
+	}
+	load := func(d *Dual) interface{} {
+		if d.inner == nil {
+			d.inner = byWorld(d).NewScript()
+			if err := json.Unmarshal(d.Script, d.inner); err != nil {
+				panic(err)
+			}
+		}
+		return d.inner
+	}
+	n := &world.Def{Prop: prop, World: "mixed", Level: "exploration"}
+	n.Gen = func(tier string, seed uint64, idx int) interface{} {
+		p := parts[idx%len(parts)]
+		s := p.Gen(tier, seed, idx/len(parts))
+		raw, _ := json.Marshal(s)
+		return &Dual{World: p.Prop + "@" + p.World, Script: raw, inner: s}
+	}
+	n.NewScript = func() interface{} { return &Dual{} }
+	n.Run = func(script interface{}, cfg simrt.Config) *world.Outcome {
+		d := script.(*Dual)
+		o := byWorld(d).Run(load(d), cfg)
+		if o.Summary != nil {
+			o.Summary["workload"] = d.World
+		}
+		return o
+	}
+	seen := map[string]bool{}
+	for _, p := range parts {
+		for _, r := range p.Real {
+			if !seen[r] {
+				seen[r] = true
+				n.Real = append(n.Real, r)
+			}
+		}
+		for _, r := range p.Stub {
+			if !seen[r] {
+				seen[r] = true
+				n.Stub = append(n.Stub, r)
+			}
+		}
+	}
+	return n
+}
+
 func init() {
 	cd := clientw.Defs()
 	world.Register(cd["C20"])
+	// C18 runs the workloads of the other properties under the race detector
+	var parts []*world.Def
+	for _, p := range []string{"C01", "C08", "C16", "C17", "C09", "C10", "C05", "C14", "C15", "C13", "C06"} {
+		parts = append(parts, world.Lookup(p))
+	}
+	c18 := mix("C18", parts)
+	c18.Rule = "workloads = the seeded scripts of the other worlds in rotation (broker: routing with in-process Publish/Subscribe, retained updates racing with subscriptions, teardown under delivery and Server.Close, fan-in, wills, session churn, attackers; ring; ack queue; topic store), executed by a worker built with -race in which only the library (and the byte-copy helper of the simulated transport) is instrumented: baton hand-offs of the simulator create no happens-before edge, the shims perform the real sync/atomic operation next to the simulated one, so ThreadSanitizer sees exactly the library's own synchronisation under a seeded, replayable schedule. A violation is a race report whose two accesses are both in code of github.com/mdzio/go-mqtt. Non-trivial = the workload's own criterion; distinct = schedule hash."
+	c18.QuickRuns, c18.ThoroughRuns = 6000, 200000
+	c18.Assumptions = []string{
+		"ThreadSanitizer reports a race only if both accesses occur in the run and are unordered by the library's own synchronisation (they need not be adjacent in time)",
+		"sync.Cond, Mutex, RWMutex, WaitGroup, Once and sync/atomic are modelled by shims that execute the real primitive as well; channel close/receive on done channels is real",
+		"the simulated transport does not add the happens-before edges that real socket I/O adds in the Go race detector (syscall-level acquire/release), so the check is stricter than go test -race over real sockets, in line with the Go memory model",
+		"go-logging runs with level off (one atomic load per call, no mutex)",
+	}
+	world.Register(c18)
 	for _, p := range []string{"C02", "C12"} {
 		world.Replace(combine(world.Lookup(p), cd[p]))
 	}
